@@ -19,6 +19,7 @@ RULE = ("(diff) for both curves, scalars a, b in [0, r] (boundary, uniform, 0 an
 ASSUMPTIONS = ["reference pairings are the specification for the optimized ones (their algebraic laws are C05's)",
                "model extension-field power (vf/model/fields.py) for the plain exponentiation"]
 ENGINE = "hypothesis (differential and metamorphic)"
+TECHNIQUE = ("differential and metamorphic property-based testing (Hypothesis): optimized vs reference pairing, split vs product, fast vs plain exponentiation, curves interleaved in one process")
 _REQ = ["interleaved:both_curves", "diff:identity_argument", "diff:bn128", "diff:bls12_381", "diff:scaled", "split:optimized_bn128", "split:optimized_bls12_381",
         "split:n>=2", "fexp:optimized_bls12_381", "fexp:exp_by_p", "fexp:x=0", "fexp:sparse", "fexp:model_power",
         "fexp:bn128", "fexp:optimized_bn128", "fexp:bls12_381"]
